@@ -1002,6 +1002,25 @@ func (vsv *VirtualServerValidator) validateActionReturn(r *v1.ActionReturn, fiel
 	if r.Code != 0 {
 		allErrs = append(allErrs, validateActionReturnCode(r.Code, fieldPath.Child("code"))...)
 	}
+	for i, h := range r.Headers {
+		allErrs = append(allErrs, validateActionReturnHeader(h, fieldPath.Child("headers").Index(i))...)
+	}
+	return allErrs
+}
+
+// validateActionReturnHeader checks a header of a return action: the name must be an HTTP header name and the
+// value, which is rendered inside double quotes, must have its double quotes escaped.
+func validateActionReturnHeader(h v1.Header, fieldPath *field.Path) field.ErrorList {
+	allErrs := field.ErrorList{}
+	if h.Name == "" {
+		allErrs = append(allErrs, field.Required(fieldPath.Child("name"), ""))
+	}
+	for _, msg := range validation.IsHTTPHeaderName(h.Name) {
+		allErrs = append(allErrs, field.Invalid(fieldPath.Child("name"), h.Name, msg))
+	}
+	if err := ValidateEscapedString(h.Value, "value", `\"${status}\"`); err != nil {
+		allErrs = append(allErrs, field.Invalid(fieldPath.Child("value"), h.Value, err.Error()))
+	}
 	return allErrs
 }
 
